@@ -538,24 +538,41 @@ def _lookup(ctx) -> None:
                              edge_ok=lambda a, b, lab: not (a.kind == "test" and short(a.ast) == "self._column_map is not None" and lab == "F"))
     ctx.ob("e.lookup-reached", f, "setattr", path is None, "column assignment consults the accessor map before rejecting", final[0].ast,
            message="t.<accessor> = value can be rejected without looking the accessor up: " + (cfg.fmt_path(path[-5:]) if path else ""))
-    # __setitem__ string specs
+    # __setitem__ string specs: every column given by name is looked up in the (fresh) accessor map - on the symx event log
+    from ..sites2 import interp_of
+    from ..symx import flatten_conds, show
     f = prog.func("table.Table.__setitem__")
-    mv = _map_vars(f)
-    n_str = 0
+    it = interp_of(prog, f)
+    S = ("param", f.params[0])
+    MAP = ("call", ("attr", S, "_current_column_map"), (), ())
+    subjects = []
+    for e in it.events:
+        for t, pol in flatten_conds(e.conds):
+            if pol and t[0] == "call" and t[1] == ("name", "isinstance") and len(t[2]) == 2 and t[2][1] == ("name", "str") \
+                    and t[2][0] not in subjects:
+                subjects.append(t[2][0])
     problems = []
-    for s in walk_stmts(f.body):
-        t_ = s.test if isinstance(s, ast.If) else None
-        if isinstance(t_, ast.Call) and short(t_.func) == "isinstance" and len(t_.args) == 2 and isinstance(t_.args[0], ast.Name) \
-                and short(t_.args[1]) == "str":
-            n_str += 1
-            if not any(isinstance(n, ast.Call) and isinstance(n.func, ast.Attribute) and n.func.attr == "get"
-                       and (short(n.func.value) in mv or short(n.func.value) == "self._current_column_map()") for n in walk_no_nested(s.body[0] if False else s)):
-                problems.append(f"the `{short(s.test)}` branch does not look the name up in the accessor map")
-    ctx.ob("e.lookup-reached", f, "setitem", not problems and n_str >= 2, f"{n_str} string column specs resolved through the accessor map", f.node,
+    for x in subjects:
+        lit = (("call", ("name", "isinstance"), (x, ("name", "str")), ()), True)
+        looked = [e for e in it.events if e.kind == "call" and e.term[1] == ("attr", MAP, "get") and e.term[2] and e.term[2][0] == x
+                  and lit in flatten_conds(e.conds)]
+        if not looked:
+            problems.append(f"the branch for a column given by name (`{show(x, it)[:40]}`) does not look the name up in the accessor map "
+                            f"obtained from _current_column_map()")
+    ctx.ob("e.lookup-reached", f, "setitem", not problems and len(subjects) >= 1,
+           f"{len(subjects)} string column spec(s) resolved through the accessor map", f.node,
            message="; ".join(problems) or "string column specs of Table.__setitem__ not found")
 
 
 # --------------------------------------------------------------------------------------------- f
+def _is_all_columns(src, S) -> bool:
+    """self._underlying  /  self._underlying or []  /  self.cols()"""
+    und = ("attr", S, "_underlying")
+    if src == und or src == ("call", ("attr", S, "cols"), (), ()):
+        return True
+    return src[0] == "bool" and src[1] == "or" and len(src[2]) == 2 and src[2][0] == und and src[2][1][0] in ("obj", "tuple")
+
+
 def _fresh(ctx) -> None:
     prog = ctx.prog
     allowed_loads = {
@@ -577,11 +594,35 @@ def _fresh(ctx) -> None:
                 ctx.ob("f.map-fresh", f, f"read:{n.lineno - f.lineno}", ok, f"read of _column_map in {q}: {allowed_loads.get(q, '')}", n,
                        message=f"{q} reads `{short(n)}` directly (line {n.lineno}): after a rename through a live column view the map is stale "
                                f"until rebuilt - read it through _current_column_map()")
-    # the helper itself: rebuild-if-wild then return
+    # the helper itself: rebuild-and-store when any column is flagged as renamed, then return the stored map (symx events)
+    from ..sites2 import interp_of, single_element
+    from ..symx import flatten_conds
     h = prog.func("table.Table._current_column_map")
-    t = cshort(h.node, None, 2000)
-    ok = "if any((_0._wild for _0 in self._underlying or []))" in t and "self._column_map = self._build_column_map()" in t \
-        and t.rstrip().endswith("return self._column_map")
+    hi = interp_of(prog, h)
+    HS = ("param", h.params[0])
+    mapf = ("attr", HS, "_column_map")
+    rebuild = ("call", ("attr", HS, "_build_column_map"), (), ())
+    cols_src = (("attr", HS, "_underlying"), ("bool", "or", (("attr", HS, "_underlying"), None)))
+    stores = [e for e in hi.events if e.kind == "store" and e.term == mapf and e.value == rebuild]
+    ok = False
+    for e in stores:
+        fc = flatten_conds(e.conds)
+        # form A: if any(c._wild for c in <columns>): ...
+        for t, pol in fc:
+            if pol and t[0] == "call" and t[1] == ("name", "any") and len(t[2]) == 1 and t[2][0][0] == "obj":
+                se = single_element(hi, t[2][0])
+                if se is not None and len(se[0]) == 1 and not se[1]:
+                    src = hi.loops[se[0][0]].iter
+                    if se[2] == ("attr", ("elem", src, se[0][0]), "_wild") and _is_all_columns(src, HS):
+                        ok = True
+        # form B: for c in <columns>: if c._wild: rebuild
+        for L in e.loops:
+            lp = hi.loops[L]
+            inside = flatten_conds(e.conds[len(lp.conds):])
+            if lp.iter is not None and _is_all_columns(lp.iter, HS) and inside == [(("attr", ("elem", lp.iter, L), "_wild"), True)]:
+                ok = True
+    rets = [e for e in hi.events if e.kind == "return" and e.depth == 0]
+    ok = ok and bool(rets) and all(e.term == mapf for e in rets) and not hi.falls_through
     ctx.ob("f.map-fresh", h, "helper", ok, "helper rebuilds and stores the map when any column is flagged as renamed", h.node,
            message="_current_column_map no longer rebuilds-and-stores the map when a column is flagged as renamed")
     # _build_column_map results are stored
